@@ -18,6 +18,7 @@ def corpus():
         "scn 6 _/F|_|Pr|_|Pn|_ -",
         "scn 5 _/r1.Q|L1|r1.Pv|L2|E c1=L9",
         "scn 4 _/Pe|Ps|A|_ -",
+        "scn 4 _/WN.L1|WPr.L2|WF.L3|_ -",
     ]
 
 
@@ -60,6 +61,7 @@ def distribution(recs):
             continue
         for body in a[2].split("/", 1)[1].split("|"):
             for act in body.split("."):
+                act = act[1:] if act.startswith("W") else act
                 if act in _scn.FAILS:
                     d[act] = d.get(act, 0) + 1
     return d
